@@ -680,14 +680,34 @@ class FnTr(object):
         if name in dict(self.sig["params"]) and name not in self.sig["inout"]:
             refuse(node, "in-place update of the parameter %s" % name)
 
+    def shared(self, v, ty):
+        """may the (list / dict) value of expression v be shared with another variable or container?  Fresh: displays,
+        comprehensions, slices, concatenations, and the results of the builtins that build a new object"""
+        if not (is_list(ty) or ty in (F, G)):
+            return False
+        if isinstance(v, (ast.List, ast.ListComp, ast.BinOp)):
+            return False
+        if isinstance(v, ast.Subscript) and isinstance(v.slice, ast.Slice):
+            return False
+        if isinstance(v, ast.Call) and isinstance(v.func, ast.Name) and v.func.id in ("list", "sorted", "defaultdict", "map"):
+            return False
+        if isinstance(v, ast.Call) and isinstance(v.func, ast.Attribute) and v.func.attr in ("fromkeys", "keys", "values"):
+            return False
+        return True
+
     def assign(self, s, nxt):
         if len(s.targets) != 1:
             refuse(s, "chained assignment")
         tg = s.targets[0]
         if isinstance(tg, ast.Name):
-            if isinstance(s.value, ast.Name) and s.value.id in self.env and (is_list(self.env[s.value.id]) or self.env[s.value.id] == F):
-                self.aliased.update((tg.id, s.value.id))
             t, ty = self.expr(s.value)
+            if self.shared(s.value, ty):
+                self.aliased.add(tg.id)
+                for x in ast.walk(s.value):
+                    if isinstance(x, ast.Name) and x.id in self.env:
+                        self.aliased.add(x.id)
+            else:
+                self.aliased.discard(tg.id)
             return self.let(s, tg.id, t, ty, nxt)
         if isinstance(tg, ast.Tuple) and all(isinstance(e, ast.Name) for e in tg.elts):
             names = [e.id for e in tg.elts]
@@ -697,9 +717,18 @@ class FnTr(object):
             if not is_prod(ty) or len(ty[1]) != len(names):
                 refuse(s, "unpacking %s into %d names" % (show(ty), len(names)))
             if isinstance(s.value, ast.Tuple):
-                for e in s.value.elts:
-                    if isinstance(e, ast.Name) and e.id in self.env and (is_list(self.env[e.id]) or self.env[e.id] == F):
-                        self.aliased.update(names + [e.id])
+                for nm, e, et in zip(names, s.value.elts, ty[1]):
+                    if self.shared(e, et):
+                        self.aliased.add(nm)
+                        for x in ast.walk(e):
+                            if isinstance(x, ast.Name) and x.id in self.env:
+                                self.aliased.add(x.id)
+                    else:
+                        self.aliased.discard(nm)
+            else:       # the components of a returned tuple may be shared with the callee's arguments
+                for nm, et in zip(names, ty[1]):
+                    if is_list(et) or et in (F, G):
+                        self.aliased.add(nm)
             parts = []
             for nm, et in zip(names, ty[1]):
                 want = self.bind(s, nm, et)
@@ -883,6 +912,9 @@ class FnTr(object):
         carried = [nm for nm in body_assigned if nm in self.env]
         for nm in carried:
             self.mutable_or_local(s, nm)
+        for nm in self.live_names(s.iter):
+            if nm in body_assigned:
+                refuse(s, "the loop iterates over %s, which its body updates" % nm)
         env0 = dict(self.env)
         for nm, ty in zip(tnames, ttypes):
             self.env[nm] = ty
@@ -916,6 +948,19 @@ class FnTr(object):
                 pat(state), it, pat([cn(x) for x in tnames]), pat(state), body, tup(state), self.block(rest, k, ctx))
         return "let %s := fold_left (fun %s %s =>\n%s) %s %s in\n%s" % (
             pat(state), pat(state), pat([cn(x) for x in tnames]), body, it, tup(state), self.block(rest, k, ctx))
+
+    def live_names(self, n):
+        """names whose (mutable) value the iteration reads while it runs: not those under a slice or a copying builtin"""
+        if isinstance(n, ast.Name):
+            return [n.id]
+        if isinstance(n, ast.Subscript) and isinstance(n.slice, ast.Slice):
+            return []
+        if isinstance(n, ast.Call) and isinstance(n.func, ast.Name) and n.func.id in ("list", "sorted", "range"):
+            return []
+        out = []
+        for c in ast.iter_child_nodes(n):
+            out += self.live_names(c)
+        return out
 
     def mutable_or_local(self, node, nm):
         if nm in dict(self.sig["params"]) and nm not in self.sig["inout"] and (is_list(self.env[nm]) or self.env[nm] == F):
